@@ -6,6 +6,7 @@ import (
 	"crypto/sha256"
 	"encoding/hex"
 	"encoding/json"
+	"errors"
 	"fmt"
 	"net/http"
 	"sync"
@@ -79,6 +80,10 @@ type LRUCache struct {
 	currentSize int64
 	done        chan struct{}
 }
+
+// ErrEntryTooLarge is returned by Set and SetWithTags when an entry can never
+// fit: the cache has no capacity, or the value alone exceeds the size limit.
+var ErrEntryTooLarge = errors.New("cache: entry exceeds cache limits")
 
 // LRUOption configures the LRU cache
 type LRUOption func(*LRUCache)
@@ -195,6 +200,12 @@ func (c *LRUCache) Set(key string, value interface{}, ttl time.Duration) error {
 		Size:       size,
 	}
 
+	// An entry that can never fit is refused (evicting cannot make room for it)
+	if !c.fits(size) {
+		c.dropKey(key)
+		return ErrEntryTooLarge
+	}
+
 	// Check if key already exists
 	if elem, ok := c.items[key]; ok {
 		c.evictList.MoveToFront(elem)
@@ -202,6 +213,7 @@ func (c *LRUCache) Set(key string, value interface{}, ttl time.Duration) error {
 		c.currentSize -= oldEntry.Size
 		c.currentSize += size
 		elem.Value = entry
+		c.evictOverSize()
 		atomic.AddUint64(&c.stats.Sets, 1)
 		return nil
 	}
@@ -247,12 +259,18 @@ func (c *LRUCache) SetWithTags(key string, value interface{}, ttl time.Duration,
 		Tags:       tags,
 	}
 
+	if !c.fits(size) {
+		c.dropKey(key)
+		return ErrEntryTooLarge
+	}
+
 	if elem, ok := c.items[key]; ok {
 		c.evictList.MoveToFront(elem)
 		oldEntry := elem.Value.(*Entry)
 		c.currentSize -= oldEntry.Size
 		c.currentSize += size
 		elem.Value = entry
+		c.evictOverSize()
 		return nil
 	}
 
@@ -339,6 +357,26 @@ func (c *LRUCache) Stats() Stats {
 		Size:       c.currentSize,
 		MaxSize:    c.maxSize,
 		EntryCount: int64(c.evictList.Len()),
+	}
+}
+
+// fits reports whether an entry of the given size can be stored at all
+func (c *LRUCache) fits(size int64) bool {
+	return c.capacity > 0 && (c.maxSize <= 0 || size <= c.maxSize)
+}
+
+// dropKey removes the entry stored under key, if any
+func (c *LRUCache) dropKey(key string) {
+	if elem, ok := c.items[key]; ok {
+		c.removeElement(elem)
+	}
+}
+
+// evictOverSize evicts least recently used entries until the size limit is
+// respected again after an in-place update (the updated entry is at the front)
+func (c *LRUCache) evictOverSize() {
+	for c.maxSize > 0 && c.currentSize > c.maxSize && c.evictList.Len() > 1 {
+		c.evictOldest()
 	}
 }
 
